@@ -30,7 +30,7 @@ def opcount(draw):
     """counted operations reaching 201 in executed / unexecuted branches, with multisig key counts, across script phases"""
     at = draw(at_)
     sv = draw(sv_)
-    way = draw(st.sampled_from(['neutral-units', 'unexecuted-branch', 'multisig-keys', 'multisig-mid', 'multisig-mid', 'phases', 'mixed-units']))
+    way = draw(st.sampled_from(['neutral-units', 'unexecuted-branch', 'multisig-keys', 'multisig-mid', 'multisig-mid', 'phases', 'mixed-units', 'interrupted', 'interrupted']))
     target = 201 + at
     stack = []
     succ = None
@@ -77,6 +77,20 @@ def opcount(draw):
         flags &= ~F['NULLFAIL']
         if sv == R.TAPSCRIPT:
             sv = R.WITNESS_V0
+    elif way == 'interrupted':
+        # runs of counted operations separated by events that neither restart the count nor count twice: an executed code separator (it moves
+        # the start of the signed script code, nothing else), a code separator in a skipped branch, executed / skipped conditionals, alt stack moves
+        events = [draw(st.sampled_from([b'\xab', b'\xab', b'\xab\xab', b'\x00\x63\xab\x68', b'\x51\x63\xab\x68', b'\x51\x63\x67\x68', b'\x51\x6b\x6c\x75', b'\x51\x69']))
+                  for _ in range(draw(st.integers(1, 3)))]
+        left = target - sum(counted_ops(e) for e in events)
+        cuts = sorted(draw(st.integers(0, left)) for _ in range(len(events)))
+        body = bytearray()
+        prev = 0
+        for e, c in zip(events, cuts):
+            body += b'\x61' * (c - prev) + e
+            prev = c
+        body += b'\x61' * (left - prev)
+        script = bytes(body) + b'\x51'
     else:
         # phases: the count restarts for every script of a spend (scriptSig -> scriptPubKey [-> redeem script])
         a = draw(st.sampled_from([0, 100, 200, 201]))
